@@ -6,6 +6,11 @@
 cd "$(dirname "$0")/.."
 what=${1:-all}
 fail=0
+# the checks run from a snapshot of this directory, so that the self-test is not disturbed by edits made meanwhile
+snap=$(mktemp -d /var/tmp/pyscsi-selftest-verif.XXXXXX)
+tar -c --exclude=./.git --exclude=./replays --exclude=./evidence --exclude='./seeded/*/check_*' . | tar -x -C $snap
+here=$PWD
+trap "rm -rf $snap" EXIT
 run_on_copy() { # <patch> <expected exit> <props...>
   patch=$1; want=$2; shift 2
   tmp=$(mktemp -d /var/tmp/pyscsi-selftest.XXXXXX)
@@ -13,8 +18,9 @@ run_on_copy() { # <patch> <expected exit> <props...>
   if ! (cd $tmp/repo && patch -p1 -s < $patch); then echo "SELFTEST-ERROR patch does not apply: $patch"; rm -rf $tmp; fail=1; return; fi
   if ! (cd $tmp/repo && /venv/bin/python -m pytest -q -p no:cacheprovider >/dev/null 2>&1); then echo "SELFTEST-ERROR test suite fails with $patch"; fail=1; fi
   for p in "$@"; do
-    PYSCSI_REPO=$tmp/repo VERIF_OUT_DIR=$tmp/out ./check $p --tier quick > $tmp/log_$p.txt 2>&1; got=$?
-    if [ "$got" = "$want" ]; then echo "ok   $(basename $patch .patch) $p exit=$got"; else echo "FAIL $(basename $patch .patch) $p exit=$got (wanted $want)"; grep -E "^(VIOLATION|  obligation|UNDECIDED|CHECKER-ERROR)" $tmp/log_$p.txt | cut -c1-220 | head -5; fail=1; fi
+    (cd $snap && PYSCSI_REPO=$tmp/repo VERIF_OUT_DIR=$tmp/out ./check $p --tier quick > $tmp/log_$p.txt 2>&1); got=$?
+    label=$(basename $patch .patch); [ "$label" = patch.diff ] && label=$(basename $(dirname $patch))
+    if [ "$got" = "$want" ]; then echo "ok   $label $p exit=$got"; else echo "FAIL $label $p exit=$got (wanted $want)"; grep -E "^(CHECKER-ERROR|UNDECIDED|VIOLATION|  obligation)" $tmp/log_$p.txt | sort | cut -c1-400 | head -6; fail=1; fi
   done
   rm -rf $tmp
 }
